@@ -1145,3 +1145,23 @@ Proof.
       * split; [discriminate|]. intros [Hb|[_ Hn]]; [lia|discriminate].
       * split; [intros _; right; split; [exact E2|reflexivity]|reflexivity].
 Qed.
+
+(** [bss_best] with [best_of] unfolded, in terms of the draws of the group *)
+Theorem bss_best_explicit labels ns b ts tr perms splits ntr nte :
+  block_shuffle_split labels ns b ts tr perms = Some splits -> ns <> 0 ->
+  validate_shuffle_split (length (usort labels)) ts tr = Some (ntr, nte) ->
+  length perms = ns * b ->
+  Forall2 (fun s g => length g = b /\
+             exists m, m < length g /\
+               let cs := group_candidates labels ntr nte g in
+               snd s = snd (nth m cs (0%Q, [])) /\
+               (forall j, j < length g -> (fst (nth m cs (0%Q, [])) <= fst (nth j cs (0%Q, [])))%Q) /\
+               (forall j, j < m -> (fst (nth m cs (0%Q, [])) < fst (nth j cs (0%Q, [])))%Q))
+          splits (groups ns b perms).
+Proof.
+  intros H Hne Hv Hl. assert (Hb := bss_best _ _ _ _ _ _ _ _ _ H Hne Hv Hl).
+  clear H. induction Hb as [|s g ss gs [Hg [m [Hm [Ht [H1 H2]]]]] _ IH]; [constructor|].
+  constructor; [|exact IH].
+  unfold group_candidates in Hm, H1. rewrite map_length in Hm, H1.
+  split; [exact Hg|]. exists m. split; [exact Hm|]. cbn zeta. repeat split; assumption.
+Qed.
